@@ -314,3 +314,86 @@ def c06(backends=None, prop="C06"):
         "model: the transcribed planner over the same space; non-trivial = fragments_needed events" %
         ("exhaustive" if thorough else "sampled", 12 if thorough else 8),
         ["TLC", "ASan/UBSan"])
+
+
+def c05():
+    chk = Check("C05")
+    thorough = chk.tier == "thorough"
+    m1 = _bg(tlc, "MC_XorDecoder", "MC_XorDecoder_tol", workers=6, timeout=900, tag="C05")
+    # (a) equations through the public API + exported tables; (c) the create box
+    cmds_a = ["xor_eq %d %d %d %d" % (k, m, hd, _seed_of(chk, i)) for i, (k, m, hd) in enumerate(XOR_TABLES)]
+    for k0 in range(0, 34, 3):
+        cmds_a.append("create_box 3 %d %d 0 8 0 7 32 1" % (k0, min(k0 + 2, 33)))
+    # (b) exhaustive decode + reconstruct of every |E| < hd, payload sizes that are / are not multiples of 16
+    pays = [4, 12, 20, 36, 100, 4100]
+    cmds_b = []
+    for ti, (k, m, hd) in enumerate(XOR_TABLES):
+        picks = pays if thorough else [pays[ti % 6], pays[(ti + 2) % 6]]
+        for pi, p in enumerate(picks):
+            cmds_b.append(sweep_cmd(BE_XOR, k, m, hd, 1 + (ti + pi) % 2, k * p, _seed_of(chk, ti * 7 + pi), 0, hd - 1, 10**9, 1 | 2 | 8))
+    f1, e1, r1 = run_sweeps("asan", cmds_a + cmds_b, "C05-asan")
+    # portable (non-SSE2) build flavour
+    cmds_n = []
+    for ti, (k, m, hd) in enumerate(XOR_TABLES):
+        picks = pays if thorough else [pays[(ti + 1) % 6]]
+        for pi, p in enumerate(picks):
+            cmds_n.append(sweep_cmd(BE_XOR, k, m, hd, 1, k * p, _seed_of(chk, 500 + ti * 7 + pi), 0, hd - 1, 10**9, 1 | 8))
+    f2, e2, r2 = run_sweeps("nosse", cmds_n, "C05-nosse")
+    v = validate("TraceCodes", f1 + f2)
+    _collect(chk, v, ["C05", "C01", "C02", "C03", "fault", "create failed", "encode failed"])
+    r = _join(m1)
+    chk.add_tlc(r, "MC_XorDecoder_tol")
+    if not r.ok:
+        chk.violation({"event": "model", "cfg": "MC_XorDecoder_tol", "violated": r.violated},
+                      "model invariant violated (distance / decoder / reconstruct within tolerance): %s\n%s" % (r.violated, r.out[-1500:]))
+    c = v.counts or [0] * 12
+    chk.cov["distinct_nontrivial"] = c[2] + c[5]
+    chk.parts.update({"decode_events": c[1], "reconstruct_events": c[5], "equation_extractions": c[10], "create_box_shapes": c[11],
+                      "events_sse2_build": e1, "events_portable_build": e2})
+    if c[10] != len(XOR_TABLES):
+        chk.violation({"event": "coverage"}, "equations were extracted for %d of %d tables" % (c[10], len(XOR_TABLES)))
+    _samples(chk, f1, kinds=("XorEq", "Dec", "Rec"))
+    return _finish_codes(chk,
+        "TLC: GF(2) rank of every < hd erasure set of all 38 golden tables (distance >= hd), transcribed decoder and "
+        "reconstruct exact on all of them; implementation: equations extracted through encode of unit data and the instance's "
+        "two tables compared with the golden copy, every |E|<hd decoded (in order and shuffled/unaligned) and every missing "
+        "index reconstructed, payload sizes {4,12,20,36,100,4100} (%s), SSE2 and portable builds, create box k 0..33 x m 0..8 x hd 0..7; "
+        "non-trivial = decode events with a missing fragment + reconstruct events" % ("all" if thorough else "two per table, rotating"),
+        ["TLC", "ecdrive memcmp", "ASan/UBSan"])
+
+
+def c04():
+    chk = Check("C04")
+    thorough = chk.tier == "thorough"
+    mcfg = "MC_RSVand_thorough" if thorough else "MC_RSVand_quick"
+    m1 = _bg(tlc, "MC_RSVand", mcfg, workers=8, timeout=3000, tag="C04")
+    stride = 1 if thorough else 4
+    cmds = []
+    # matrix / basis commands are split by k so that the work spreads over processes
+    cmds.append("matrix 32 %d" % stride)
+    cmds.append("rs_basis 32 %d %d" % (stride if thorough else 6, _seed_of(chk, 1)))
+    files, events, restarts = run_sweeps("asan", cmds, "C04-asan", merge=False)
+    v = validate("TraceRS", files, max_lines=400)
+    _collect(chk, v, ["C04", "fault", "create failed", "encode failed"])
+    r = _join(m1)
+    chk.add_tlc(r, mcfg)
+    if not r.ok:
+        chk.violation({"event": "model", "cfg": mcfg, "violated": r.violated},
+                      "model invariant violated: %s\n%s" % (r.violated, r.out[-1500:]))
+    c = v.counts or [0] * 6
+    chk.cov["distinct_nontrivial"] = c[1] + c[2]
+    chk.parts.update({"matrix_events": c[1], "basis_encode_events": c[2], "linearity_events": c[3]})
+    for f in files:
+        for line in open(f):
+            ev = json.loads(line)
+            if ev.get("e") == "Basis":
+                chk.sample(ev, cap=2); break
+    return _finish_codes(chk,
+        "TLC: transcription of make_systematic_matrix equals the closed form L_j(r)/L_j(k) for %s, no row swap, no zero pivot, "
+        "normalisers non-zero, first parity all ones; MDS and reconstruct-row algebra for every erasure set of every shape with "
+        "k+m <= %d.  Implementation: exported make_systematic_matrix(k,m) entry by entry and parity words of basis encodes "
+        "(16-bit word 2^i in column j) through the public API against the closed form, GF(2)-linearity of encode on seeded "
+        "data, for %s shapes; non-trivial = matrix + basis-encode events" %
+        ("all 496 shapes" if thorough else "the 31 shapes (k, 32-k) (each smaller m is a row prefix) and all k+m<=7",
+         9 if thorough else 7, "all 496" if thorough else "every 4th (matrix) / 6th (basis) shape plus k=1, m=1, k+m=32"),
+        ["TLC", "ASan/UBSan"], exhaustive=thorough)
